@@ -55,6 +55,23 @@ Definition with_v1 (o : wopts) (v1 : bool) : wopts :=
 Definition finalized_file (file : bytes) : bool :=
   match read_v2hdr (drop pragma_size file) with Ok _ => true | Err _ => false end.
 
+(* which of Resume's checks refuses a file (each constructor is one error site of
+   store.ResumableVersion / store.Resume before the first write) *)
+Inductive refusal :=
+| RFirstHeader (e : err)  (* ResumableVersion: ReadVersion on the first header fails with e *)
+| RVersion                (* "cannot resume on CAR file with version N" *)
+| RNoTruncate             (* "cannot resume a CARv2 without the ability to truncate" *)
+| RDataOffset             (* "cannot resume from file with mismatched CARv1 offset; `WithDataPadding`
+                             option must match the padding on file" *)
+| RDataHeader (e : err)   (* "error reading car header: e" (the CARv1 header at the data offset) *)
+| RMismatch.              (* "cannot resume on file with mismatching data header" *)
+(* the error class the caller sees ("%w" wrapping: a bare EOF is no longer == io.EOF) *)
+Definition refusal_err (r : refusal) : err :=
+  match r with
+  | RFirstHeader e => e
+  | RDataHeader e => match e with EEof => EOther | _ => e end
+  | RVersion | RNoTruncate | RDataOffset | RMismatch => EOther
+  end.
 Section Sessions.
   Variable hdrdec : bytes -> option (list bytes * N).
 
@@ -120,6 +137,45 @@ Section Sessions.
     | Ok (hroots, hver, _, _) => header_matches hroots hver roots'
     | Err _ => false
     end.
+
+  (* the check of [resume_checks] that refuses, None = no check refuses (ResumeReject.refusal_checks:
+     resume_checks = Err (refusal_err r) exactly when this is Some r) *)
+  Definition resume_refusal (can_truncate : bool) (o : wopts) (roots : list bytes) (file : bytes)
+    : option refusal :=
+    match read_header hdrdec (w_maxh o) file with
+    | Err e => Some (RFirstHeader e)
+    | Ok (_, ver, _, _) =>
+      if negb (((ver =? 1) && w_v1 o) || ((ver =? 2) && negb (w_v1 o))) then Some RVersion else
+      let probe : option refusal :=
+        if w_v1 o then None
+        else if negb can_truncate then Some RNoTruncate
+        else match read_v2hdr (drop pragma_size file) with
+             | Ok (h, _) => if negb (h_doff h =? data_base o) then Some RDataOffset else None
+             | Err _ => None
+             end in
+      match probe with
+      | Some r => Some r
+      | None =>
+        match read_header hdrdec (w_maxh o) (drop (data_base o) file) with
+        | Err e => Some (RDataHeader e)
+        | Ok (hroots, hver, _, _) =>
+          if negb (header_matches hroots hver roots) then Some RMismatch else None
+        end
+      end
+    end.
+  (* OpenReadWrite / OpenReadableWritable on an existing file (both can truncate) *)
+  Definition reopen_refusal := resume_refusal true.
+
+  (* C12: the refusal a non-finalized file meets at the data offset implied by the caller's padding *)
+  Definition refusal_at (o' : wopts) (roots' : list bytes) (file : bytes) : refusal :=
+    match read_header hdrdec (w_maxh o') (drop (data_base o') file) with
+    | Ok _ => RMismatch
+    | Err e => RDataHeader e
+    end.
+  (* ... and the refusal a padding mismatch meets: on a finalized file the data offset recorded in
+     the CARv2 header, on a non-finalized one whatever the bytes at the caller's offset amount to *)
+  Definition padding_refusal (o' : wopts) (roots' : list bytes) (file : bytes) : refusal :=
+    if finalized_file file then RDataOffset else refusal_at o' roots' file.
 End Sessions.
 
 (* ================================ C06: crash images ============================================ *)
